@@ -1,18 +1,5 @@
-// C12: per-instruction codec as uninterpreted functions constrained by the facts the Kani harnesses prove on the real
-// compiled OpCode::{decode, encode} (A-HANDOVER), and the whole-program lifting proved here.
-/// decode one instruction from the front of b: the instruction and the number of bytes consumed
-pub uninterp spec fn spec_decode1(b: Seq<u8>) -> Option<(OpCode, nat)>;
-/// encode one instruction (None: PushB literal longer than 255 bytes)
-pub uninterp spec fn spec_encode1(op: OpCode) -> Option<Seq<u8>>;
-/// K1 (Kani `dec_enc_*`): whatever decodes re-encodes to exactly the consumed bytes
-pub broadcast axiom fn axiom_k1(b: Seq<u8>)
-    requires (#[trigger] spec_decode1(b)) is Some
-    ensures 1 <= spec_decode1(b)->Some_0.1 <= b.len(), spec_encode1(spec_decode1(b)->Some_0.0) == Some(b.take(spec_decode1(b)->Some_0.1 as int));
-/// K2 (Kani `enc_dec_*` + locality of std::io::Read for &[u8]): an encoding decodes back to the instruction, consuming
-/// exactly the encoding, whatever follows it
-pub broadcast axiom fn axiom_k2(op: OpCode, rest: Seq<u8>)
-    requires spec_encode1(op) is Some
-    ensures #[trigger] spec_decode1(spec_encode1(op)->Some_0 + rest) == Some((op, spec_encode1(op)->Some_0.len()));
+// C12: whole-program lifting of the per-instruction codec. The per-instruction wire format (spec_decode1 / spec_encode1) is DEFINED in
+// lemmas/codec_def.rs, where K1 / K2 are proved from the definition; OpCode::{decode, encode} are proved against it in unit codec.
 pub open spec fn enc_all(ops: Seq<OpCode>) -> Option<Seq<u8>> decreases ops.len() {
     if ops.len() == 0 { Some(Seq::empty()) } else {
         match (enc_all(ops.drop_last()), spec_encode1(ops.last())) { (Some(a), Some(e)) => Some(a + e), _ => None }
@@ -69,7 +56,7 @@ pub proof fn lemma_roundtrip(ops: Seq<OpCode>)
     ensures dec_all(enc_all(ops)->Some_0) == Some(ops)
     decreases ops.len()
 {
-    broadcast use axiom_k1, axiom_k2;
+    broadcast use lemma_k1, lemma_k2;
     lemma_enc_front_eq(ops);
     if ops.len() > 0 {
         lemma_enc_front_eq(ops.skip(1));
@@ -90,7 +77,7 @@ pub proof fn lemma_dec_then_enc(b: Seq<u8>)
     ensures enc_all(dec_all(b)->Some_0) == Some(b)
     decreases b.len()
 {
-    broadcast use axiom_k1;
+    broadcast use lemma_k1;
     if b.len() > 0 {
         let (op, n) = spec_decode1(b)->Some_0;
         lemma_dec_then_enc(b.skip(n as int));
